@@ -59,6 +59,41 @@ def project(line, keep_growth):
     return ';'.join(strip_growth(t) for t in toks)
 
 
+_ALLOC_SFX = __import__('re').compile(r'@(\d+|\?)(?:\^(\d+|\?))?$')
+
+
+def reconcile(o, m):
+    """Allocation counts and record-set buffer capacities of `A` cases (`tok@count^capacity`): the model prints a
+    number where its ghost capacities determine the value and `?` where they do not (error values, policy growth,
+    owned records); the comparison ignores the implementation's value exactly there."""
+    if '@' not in m:
+        return o, m
+    ot, ol = split_obs(o)
+    mt, ml = split_obs(m)
+    if len(ot) != len(mt):
+        return o, m
+    for i, t in enumerate(mt):
+        mm = _ALLOC_SFX.search(t)
+        mo = _ALLOC_SFX.search(ot[i])
+        if not mm or not mo:
+            continue
+        def sfx(x, ref):
+            out = ''
+            if ref.group(1) != '?':
+                out += '@' + x.group(1)
+            if ref.group(2) is not None and ref.group(2) != '?':
+                out += '^' + (x.group(2) or '-')
+            return out
+        mt[i] = t[:mm.start()] + sfx(mm, mm)
+        ot[i] = ot[i][:mo.start()] + sfx(mo, mm)
+    return ';'.join(ot) + (' L=' + ol if ' L=' in o else ''), ';'.join(mt) + (' L=' + ml if ' L=' in m else '')
+
+
+def differ(o, m, keep_growth):
+    o, m = reconcile(o, m)
+    return project(o, keep_growth) != project(m, keep_growth)
+
+
 class Result:
     def __init__(self, prop):
         self.prop = prop
@@ -94,7 +129,7 @@ def _work(rng):
     ndiff = 0
     for i in range(lo, hi):
         c, o, m, s = cases[i], impl[i], model[i], spec[i]
-        if exact and (EXACT_KINDS is None or c[:1] in EXACT_KINDS) and project(o, keep_growth) != project(m, keep_growth):
+        if exact and (EXACT_KINDS is None or c[:1] in EXACT_KINDS) and differ(o, m, keep_growth):
             ndiff += 1
             if len(diffs) < 10:
                 diffs.append((c, o, m))
